@@ -447,6 +447,31 @@ pub(crate) fn build_app_with_workspace_root_and_provider_and_task_policy(
         .with_state(state)
 }
 
+/// Verification variant of the router constructor that also hands out the engine behind it.
+#[cfg(rip_verif)]
+pub(crate) fn verif_build_app_and_engine(
+    data_dir: std::path::PathBuf,
+    workspace_root: std::path::PathBuf,
+    openresponses: Option<OpenResponsesConfig>,
+    allow_pty_tasks: bool,
+) -> (Router, Arc<SessionEngine>) {
+    let (router, openapi_json) = build_openapi_router();
+    let engine = Arc::new(
+        SessionEngine::new(data_dir, workspace_root, openresponses).expect("session engine"),
+    );
+    let state = AppState {
+        sessions: Arc::new(Mutex::new(HashMap::new())),
+        tasks: Arc::new(Mutex::new(HashMap::new())),
+        engine: engine.clone(),
+        openapi_json: Arc::new(openapi_json),
+        allow_pty_tasks,
+    };
+    let router = router
+        .route("/openapi.json", get(openapi_spec))
+        .with_state(state);
+    (router, engine)
+}
+
 pub(crate) fn build_openapi_router() -> (Router<AppState>, String) {
     let (router, api) = OpenApiRouter::with_openapi(ApiDoc::openapi())
         .routes(routes!(config_doctor))
